@@ -660,10 +660,12 @@ UnitsMap defineUnitsMap(const UnitsPtr &units)
 
     updateUnitsMap(units, unitsMap);
 
-    // Checking for exponents of zero in the map, which can be removed.
+    // Checking for exponents of zero in the map, which can be removed. The exponents are sums of products of real
+    // numbers: what is left of, say, 0.1 + 0.2 - 0.3 is zero too.
+    static const double exponentTolerance = 1.0e-9;
     auto it = unitsMap.begin();
     while (it != unitsMap.end()) {
-        if (it->second == 0.0) {
+        if (std::fabs(it->second) <= exponentTolerance) {
             it = unitsMap.erase(it);
         } else if (it->first == "dimensionless") {
             it = unitsMap.erase(it);
